@@ -28,7 +28,9 @@ RULE = ("random systems: 1-3 species x 1-3 environments; density / chstt scalar 
         "per-node volume and units system) spaces with random environment maps; independent random units systems for "
         "species, network, space, nodes and system; every (species, cell) pair read through rotating naming forms; "
         "random writes; malformed positions / species; species edits + regeneration; every 5th system has a chstt dictionary with "
-        "an explicitly falsy entry (False / 0 / 0.0) for a used environment AND a truthy 'default' (also after an edit); sharing: "
+        "an explicitly falsy entry (False / 0 / 0.0) for a used environment AND a truthy 'default' (also after an edit); spaces built with OMITTED constructor arguments (every 4th system omits the grid cell "
+        "volume under a non-µm space unit; cell_env / w,h,d / boundary conditions / node volume and environment omitted at random; "
+        "constructor and rdspace_from_dict routes) against the documented defaults; sharing: "
         "systems built from another system's arrays / the caller's ndarrays (constructor and property setters), a setter on one "
         "must change one entry of that system and nothing else, edits of the caller's arrays must not leak.  Non-trivial: more than one cell or "
         "species and a non-zero density somewhere; distinct by the whole description")
